@@ -166,14 +166,14 @@ theorem roundtrip_dat_rows {β : Type} [OfNat β 0] (q : β → β) (cols : List
     decodeRows (encodeRows q cols n) cols.length = cols.map (·.map q) :=
   roundtrip_rows' q cols n h
 
-/-- Pickled frame: exact, unless a series is called `Time`. -/
-theorem roundtrip_pkl {β : Type} (names : List Str) (t : List β) (xs : List (List β)) (hl : names.length = xs.length)
-    (ht : "Time".toList ∉ names) : decodePkl (encodePkl names t xs) = .ok (names, t, xs) :=
-  roundtrip_pkl' names t xs hl ht
+/-- Pickled frame: exact, for every list of names (a series called `Time` included, since the F19b repair). -/
+theorem roundtrip_pkl {β : Type} (names : List Str) (t : List β) (xs : List (List β)) (hl : names.length = xs.length) :
+    decodePkl (encodePkl names t xs) = .ok (names, t, xs) :=
+  roundtrip_pkl' names t xs hl
 
-/-- A series called `Time` makes the reload fail (finding F19b). -/
-theorem pkl_time_name_counterexample :
-    decodePkl (encodePkl ["Time".toList] [(0 : Rat), 1] [[5, 6]]) = .error .value := by
+/-- Non-vacuity: the input of the former finding F19b (a series called `Time`) reloads. -/
+theorem pkl_time_name_roundtrip :
+    decodePkl (encodePkl ["Time".toList] [(0 : Rat), 1] [[5, 6]]) = .ok (["Time".toList], [0, 1], [[5, 6]]) := by
   decide +kernel
 
 /-- SIMA h5: for distinct names without `/` and `\` and uniformly sampled time arrays (≥ 2 samples) the file lists the same
